@@ -72,7 +72,9 @@ Proof.
       - lia.
       - simpl. rewrite L2; auto.
       - exists hb. rewrite L2, E. split; auto. }
-    destruct (wbws_linear t hb b s eq_refl L2) as [_ [W2 _]]. destruct Hw as [HGw _]. rewrite W2 in HGw. exact HGw.
+    assert (Hab : forall c, info t (cur s) = Some c -> bnum c < bnum b).
+    { intros c Hcc. simpl in Hcc. rewrite E, Hh in Hcc. inversion Hcc; subst. lia. }
+    destruct (wbws_linear t hb b s eq_refl L2 Hab) as [_ [W2 _]]. destruct Hw as [HGw _]. rewrite W2 in HGw. exact HGw.
   - intros n Hn. unfold canon. rewrite Fc, alookup_aset.
     destruct (bnum b =? n) eqn:En; [apply N.eqb_eq in En; lia|]. apply Hf. lia.
 Qed.
@@ -175,7 +177,9 @@ Proof.
     assert (Hfree : canon d (bnum b) = None) by (apply Hf; lia).
     rewrite (ic_step t g Hg0 Hgood d hb b HG Hh L2 L3 L4 L5 Hfree); auto.
     assert (Hpc : bpar b = cur s) by congruence.
-    destruct (wbws_linear t hb b s Hb Hpc) as [W1 [W2 [W3 W4]]].
+    assert (Hab : forall c, info t (cur s) = Some c -> bnum c < bnum b).
+    { intros c Hcc. rewrite Hc in Hcc. destruct (hb_facts d hb HG Hh) as [E _]. rewrite E, Hh in Hcc. inversion Hcc; subst. lia. }
+    destruct (wbws_linear t hb b s Hb Hpc Hab) as [W1 [W2 [W3 W4]]].
     destruct (write_block_with_state t hb b s) as [s' e']. cbn [fst snd] in W1, W2, W3, W4. subst e'.
     assert (W2' : disk_of s' = d3 d hb b) by (rewrite W2; exact (Fam_lands d hb b (disk_of s) HF)).
     destruct (IH (d3 d hb b) b s' (Some b) G1 G2 G3 L6) as [I1 [I2 I3]]; auto.
@@ -200,8 +204,10 @@ Proof.
     assert (HF : Fam d hb b (disk_of s)) by (rewrite Hd; apply Fam0).
     cbn [map]. rewrite (ic_step t g Hg0 Hgood d hb b HG Hh L2 L3 L4 L5 Hfree); auto.
     assert (Hpc : bpar b = cur s) by congruence.
-    destruct (wbws_alive t hb b s Hpc) as [W1 [W2 W3]].
-    pose proof (wbws_budget_disk t hb b s Hpc) as W4.
+    assert (Hab : forall c, info t (cur s) = Some c -> bnum c < bnum b).
+    { intros c Hcc. rewrite Hc in Hcc. destruct (hb_facts d hb HG Hh) as [E _]. rewrite E, Hh in Hcc. inversion Hcc; subst. lia. }
+    destruct (wbws_alive t hb b s Hpc Hab) as [W1 [W2 W3]].
+    pose proof (wbws_budget_disk t hb b s Hpc Hab) as W4.
     destruct (write_block_with_state t hb b s) as [s' e']. cbn [fst snd] in W1, W2, W3, W4. subst e'.
     destruct (alive_dec s') as [Ha|Hdead].
     + right. apply IH; auto. rewrite (W3 Ha), Hd. reflexivity.
